@@ -18,6 +18,7 @@ LEVEL = 'exploration'
 BUDGET_S = {'quick': 110, 'thorough': 1700}
 UNIT_TIMEOUT_S = 300
 REMOTE_FILE = remote.__file__
+STEP_CAP = 20000
 OPCODE_FUNCS = ('prepare', 'run', '_threaded_run', '_call', 'close')
 
 RULE = ('One evaluation = one simulated run: 1-3 caller threads with seeded scripts over prepare()/eval-call/think, '
@@ -153,7 +154,7 @@ class Run(object):
     def __init__(self, case, keep_events=0):
         self.case = case
         self.vios = []
-        self.kernel = Kernel(make_sched(case['sched']), step_cap=200000, time_cap=900.0,
+        self.kernel = Kernel(make_sched(case['sched']), step_cap=STEP_CAP, time_cap=900.0,
                              trace_file=REMOTE_FILE,
                              opcode_funcs=OPCODE_FUNCS if case['gran'] == 'opcode' else (),
                              keep_events=keep_events)
@@ -458,8 +459,7 @@ def run_case(case, keep_events=0):
     }
 
 
-PROBE_NAMES = ['starter_clears_handle_while_caller_inside_run', 'join_waited_for_running_starter', 'lock_contended', 'two_waiters_on_lock', 'connect_refused_ge_3',
-               'starter_died_with_exception']
+PROBE_NAMES = ['starter_clears_handle_while_caller_inside_run', 'join_waited_for_running_starter', 'lock_contended', 'two_waiters_on_lock', 'connect_refused_ge_3']
 
 
 def run_unit(unit):
@@ -495,11 +495,13 @@ def run_unit(unit):
     sim_s = 0.0
     log = prng.Log()
     sched_kinds = {}
+    max_steps = 0
     for i in range(unit['first'], unit['first'] + unit['count']):
         case = gen_case(unit['seed'], i, unit['mode'])
         res = run_case(case)
         log.add(i, res['digest'])
         steps += res['steps']
+        max_steps = max(max_steps, res['steps'])
         sim_s += res['sim_s']
         for kf, n in res['faults'].items():
             faults[kf] = faults.get(kf, 0) + n
@@ -520,7 +522,7 @@ def run_unit(unit):
                             'launches': res['launches'], 'ops': res['op_log'][:12]})
     return {'evals': unit['count'], 'keys': sorted(keys), 'faults': faults, 'probes': probes, 'violations': vios,
             'samples': samples, 'digest': log.digest(), 'steps': steps, 'sim_s': sim_s,
-            'extra': {'sched_' + k: n for k, n in sched_kinds.items()}}
+            'extra': dict({'sched_' + k: n for k, n in sched_kinds.items()}, max_steps_in_one_run=max_steps)}
 
 
 # ---------------------------------------------------------------- replay / shrink
